@@ -35,9 +35,13 @@ class Scripted(np.random.RandomState):
         return arr if isinstance(a, (int, np.integer)) else np.asarray(a)[arr]
 
     def random(self, size=None):
-        v = self._next(0)
-        self.log.append(('random', v))
-        return float(v)
+        """A uniform draw.  Cirq's trajectory code consumes it as `p -= weight; if p < 0: break` over the Kraus
+        weights; the symbolic value returned here answers `p < 0` with True at the scripted position, which is
+        the branch a uniform p selects with probability equal to that weight."""
+        k = self._next(0)
+        sp = SymP(int(k))
+        self.log.append(('symp', sp))
+        return sp
 
     def random_sample(self, size=None):
         return self.random(size)
@@ -58,6 +62,35 @@ class Scripted(np.random.RandomState):
         return np.array(ks).reshape(size) + (0 if high is None else low)
 
 
+class SymP:
+    """symbolic uniform random number: see Scripted.random"""
+
+    def __init__(self, k):
+        self.k = k
+        self.weights = []
+        self.comparisons = 0
+        self.broke = False
+
+    def __sub__(self, w):
+        self.weights.append(float(w))
+        return self
+
+    __isub__ = __sub__
+
+    def __lt__(self, other):  # `p < 0` after subtracting the weight of Kraus operator number `comparisons`
+        hit = self.comparisons == self.k
+        self.comparisons += 1
+        if hit:
+            self.broke = True
+        return hit
+
+    def __ge__(self, other):  # `p >= 0`: the loop ran out without selecting (only the scripted position is too large)
+        return not self.broke
+
+    def __float__(self):
+        return 0.0
+
+
 def enumerate_branches(run_once, max_branches=4000):
     """run_once(prng) -> observable (hashable).  Explores every sequence of discrete draws depth-first and
     returns {observable: probability}.  Draws of `random()` (continuous) are not supported here."""
@@ -72,16 +105,28 @@ def enumerate_branches(run_once, max_branches=4000):
         prng = Scripted(script + [0] * 64)
         obs = run_once(prng)
         prob = 1.0
+        def chosen(e):
+            return e[3] if e[0] == 'choice' else e[1].k
+
         for i, ent in enumerate(prng.log):
-            if ent[0] != 'choice':
-                raise RuntimeError('continuous draw in a discrete enumeration')
+            if ent[0] == 'symp':
+                sp = ent[1]
+                if not sp.broke:
+                    prob = 0.0  # scripted position beyond the last Kraus operator: not a branch
+                    break
+                prob *= sp.weights[sp.k]
+                if i >= len(script) - 1:
+                    # the number of Kraus operators is discovered lazily: from the run that chose index k at this
+                    # (newly discovered or last scripted) position, also explore index k + 1
+                    stack.append([chosen(e) for e in prng.log[:i]] + [sp.k + 1])
+                continue
             _, n, pv, k = ent
             prob *= pv[k] if pv is not None else 1.0 / n
             if i >= len(script):
                 for alt in range(1, n):
                     pa = pv[alt] if pv is not None else 1.0 / n
                     if pa > 1e-13:
-                        stack.append([e[3] for e in prng.log[:i]] + [alt])
+                        stack.append([chosen(e) for e in prng.log[:i]] + [alt])
         if prob > 1e-13:
             out[obs] += prob
     return dict(out)
